@@ -103,13 +103,17 @@ def gen_binding_cases(rnd, n):
     for _ in range(n):
         k = rnd.randint(2, 4)
         names = rnd.sample(NAME_POOL, k)
+        if rnd.random() < 0.12:
+            names = rnd.sample(['id', 'name', 'b_2', 'col', 'x1', 'zz', 'Total'], k)
         if any(AB_TOKEN.search(x) for x in names):
             continue
         rows = [['r%d c%d' % (r, c) for c in range(k)] for r in range(1, 4)]
         pos = rnd.randrange(k)
         nm = names[pos]
         spell = rnd.choice(['dq', 'sq', 'repr', 'attr', 'direct'])
-        fe = rnd.choice(['list', 'list', 'csv', 'pandas', 'sqlite'])
+        if all(re.match(r'^[_a-zA-Z][_a-zA-Z0-9]*$', x) for x in names) and rnd.random() < 0.6:
+            spell = 'direct'
+        fe = rnd.choice(['list', 'list', 'csv', 'pandas', 'sqlite']) if spell != 'direct' else 'list'
         normalize = True
         if spell == 'dq':
             var = 'a["%s"]' % py_escape(nm, '"')
